@@ -397,6 +397,66 @@ func evalCase(r *rep.Run, c Case, idx int) {
 	}
 }
 
+// managerDirect: the transaction manager's Commit / Rollback called directly with the transaction of a context in each
+// role. Only the launcher's call may reach the coordinator; a context that merely carries somebody else's xid (a callee
+// built by an integration layer: role unknown; a participant) must not decide that transaction.
+func managerDirect(r *rep.Run) {
+	e := getEnv()
+	tm.InitTm(tm.TmConfig{CommitRetryCount: 1, RollbackRetryCount: 1, DefaultGlobalTransactionTimeout: 60 * time.Second})
+	vtime.SetVirtual(func(d time.Duration) bool { return d < 20*time.Second })
+	defer vtime.SetPassThrough()
+	for _, role := range []tm.GlobalTransactionRole{tm.Launcher, tm.Participant, tm.UnKnow} {
+		for _, op := range []string{"commit", "rollback"} {
+			for _, viaCtx := range []bool{true, false} {
+				e.TC.ResetState()
+				// a transaction begun by somebody else
+				var xid string
+				bctx := tm.InitSeataContext(context.Background())
+				if err := tm.GetGlobalTransactionManager().Begin(bctx, time.Minute); err != nil {
+					r.Broken = "manager-direct: begin: " + err.Error()
+					return
+				}
+				xid = tm.GetXID(bctx)
+				mark := len(e.TC.Events())
+				ctx := tm.InitSeataContext(context.Background())
+				tm.SetXID(ctx, xid)
+				gtx := &tm.GlobalTransaction{Xid: xid, TxRole: role, TxStatus: message.GlobalStatusBegin}
+				if viaCtx {
+					tm.SetTxRole(ctx, role)
+					tm.SetTxStatus(ctx, message.GlobalStatusBegin)
+					gtx = tm.GetTx(ctx)
+				}
+				var err error
+				if op == "commit" {
+					err = tm.GetGlobalTransactionManager().Commit(ctx, gtx)
+				} else {
+					err = tm.GetGlobalTransactionManager().Rollback(ctx, gtx)
+				}
+				n := 0
+				for _, ev := range e.TC.Events()[mark:] {
+					if ev.Dir != "c2s" {
+						continue
+					}
+					switch ev.Msg.Body.(type) {
+					case message.GlobalCommitRequest, message.GlobalRollbackRequest:
+						n++
+					}
+				}
+				r.Eval(true)
+				r.Count("manager_direct_cases", 1)
+				loc := map[string]interface{}{"role": role.String(), "op": op, "transaction_from_context": viaCtx}
+				if role != tm.Launcher && n != 0 {
+					r.Violate(fmt.Sprintf("decided-by-non-launcher/%s/%s", role.String(), op), "never both; never for a joined transaction", loc,
+						fmt.Sprintf("%s called with a transaction in role %s sent %d decision request(s) for %s to the coordinator (err=%v)", op, role.String(), n, xid, err))
+				}
+				if role == tm.Launcher && (n != 1 || err != nil) {
+					r.Violate(fmt.Sprintf("launcher-decision-lost/%s", op), "exactly one truthful decision", loc, fmt.Sprintf("%s by the launcher sent %d request(s), err=%v", op, n, err))
+				}
+			}
+		}
+	}
+}
+
 func Run(r *rep.Run) {
 	thorough := r.Tier == "thorough"
 	r.Rule = "complete product: callback outcome {nil, error, panic with a string / error / int / struct value} x begin answer {ok, failure result, transport error, no reply} x every effective second-phase answer sequence over {ok, failure result, transport error, no reply} up to the retry bound x retry setting {1,2,3, 0=unbounded up to a horizon of 4 attempts} x context cancellation {never, before begin, inside the callback, after the k-th second-phase attempt} x role {initiator, participant, and scopes that run outside any transaction: NotSupported (with and without a transaction to suspend), Never, Supports with nothing to join}; single thread, virtual time (back-off waits elapse at once, the RPC timeout expires exactly for dropped requests). Non-trivial = any fault, cancellation or non-nil callback outcome."
@@ -418,6 +478,7 @@ func Run(r *rep.Run) {
 	}
 	shard, nshards, worker := rep.Shard()
 	if !worker {
+		managerDirect(r)
 		total := Enumerate(thorough, func(int, Case) {})
 		r.Extra["space_size"] = total
 		rep.RunSharded(r, 8, 20*time.Minute)
